@@ -198,6 +198,8 @@ class Tr:
             env2 = dict(env)
             env2["@popped"] = tuple(env.get("@popped", ())) + (n,)
             return self.stmts(rest, env2, cont)
+        if isinstance(s, ast.AnnAssign) and s.value is None and isinstance(s.target, ast.Name) and s.target.id not in env:
+            return self.stmts(rest, env, cont)          # a bare declaration `x: T` binds nothing
         if isinstance(s, (ast.Assign, ast.AnnAssign)):
             tgt = s.targets[0] if isinstance(s, ast.Assign) and len(s.targets) == 1 else getattr(s, "target", None)
             if not isinstance(tgt, ast.Name) or s.value is None:
